@@ -83,13 +83,16 @@ def run(ctx):
             cmds, scripts = [("query", cmd_query(b"q"))], ["q err %d %s" % (code, h)]
         elif site == 1:
             k = rng.randint(0, 3)
-            cmds, scripts = [("query", cmd_query(b"q"))], [" ".join(["q start 1 " + c1] + ["wr 1 i32:%d p" % j for j in range(k)] + ["ferr %d %s" % (code, h)])]
+            openrow = ["wc i32:9 p"] if rng.random() < 0.4 else []
+            cmds, scripts = [("query", cmd_query(b"q"))], [" ".join(["q start 1 " + c1] + ["wr 1 i32:%d p" % j for j in range(k)] + openrow + ["ferr %d %s" % (code, h)])]
         elif site == 2:
             cmds, scripts = [("prepare", cmd_prepare(b"p"))], ["p err %d %s" % (code, h)]
         elif site == 3:
             cmds, scripts = [("init", cmd_init(b"db"))], ["i err %d %s" % (code, h)]
         elif site == 4:
-            cmds, scripts = [("prepare", cmd_prepare(b"p")), ("execute", cmd_execute(1))], ["p reply 1 0 0", "x all - start 1 %s wr 1 i32:1 p ferr %d %s" % (c1, code, h)]
+            # error after some rows, the last row possibly still open (written with write_col, not ended)
+            body = rng.choice(["wr 1 i32:1 p", "wc i32:1 p", "wr 1 i32:1 p wc i32:2 p", ""])
+            cmds, scripts = [("prepare", cmd_prepare(b"p")), ("execute", cmd_execute(1))], ["p reply 1 0 0", " ".join(x for x in ["x all - start 1 " + c1, body, "ferr %d %s" % (code, h)] if x)]
         else:
             cmds, scripts = [("query", cmd_query(b"USE x"))], ["i err %d %s" % (code, h)]
         c = mk_case("c13_%d" % i, cmds + [("ping", cmd_ping())], scripts, lim=rng.choice([U24_MAX, U24_MAX, 11]))
